@@ -68,7 +68,7 @@ func eqSlice[T comparable](a, b []T) bool {
 		return false
 	}
 	for i := range a {
-		if a[i] != b[i] {
+		if !eqv(a[i], b[i]) { // observed values: NaN equals NaN
 			return false
 		}
 	}
